@@ -33,11 +33,11 @@ Lemma dloop_linv : forall tot ncm,
   (forall a b, a <> b -> (Rm (t_conn tot) a b <-> Rm (t_rev tot) b a)) ->
   NoDup (map fst (t_conn tot)) -> NoDup (map fst ncm) ->
   forall fuel dd ddr dt dtr r,
-    linv (t_conn tot) ncm dd ddr dt dtr -> NoDup (map fst dt) ->
+    linv (t_conn tot) ncm dd ddr dt dtr -> NoDup (map fst dt) -> NoDup (map fst dtr) ->
     dloop fuel tot ncm dd ddr dt dtr = Ok r ->
-    (exists ddr', linv (t_conn tot) ncm [] ddr' (fst r) (snd r)) /\ NoDup (map fst (fst r)).
+    (exists ddr', linv (t_conn tot) ncm [] ddr' (fst r) (snd r)) /\ NoDup (map fst (fst r)) /\ NoDup (map fst (snd r)).
 Proof.
-  intros tot ncm Hcv Hnd Hncm. induction fuel as [|f IH]; intros dd ddr dt dtr r L Ndt H; [discriminate|].
+  intros tot ncm Hcv Hnd Hncm. induction fuel as [|f IH]; intros dd ddr dt dtr r L Ndt Ndtr H; [discriminate|].
   cbn [dloop] in H. cbv zeta in H.
   pose proof (round_ok _ _ _ Hcv Hnd Hncm _ _ _ _ L) as R. cbv zeta in R.
   destruct (join (fun x y => negb (mhas x y dd) && negb (mhas x y dt) && negb (mhas x y (t_conn tot))) ncm ddr
@@ -46,9 +46,10 @@ Proof.
     as [[dn dnr] ch] eqn:J.
   cbn [fst snd] in R. destruct R as [L' Hz].
   assert (Ndt' : NoDup (map fst (mmove dd dt))) by (apply nodup_mmove; exact Ndt).
+  assert (Ndtr' : NoDup (map fst (mmove ddr dtr))) by (apply nodup_mmove; exact Ndtr).
   destruct ch.
-  - apply (IH _ _ _ _ _ L' Ndt' H).
-  - inversion H; subst r. cbn [fst snd]. rewrite (Hz eq_refl) in L'. split; [eexists; exact L'|exact Ndt'].
+  - apply (IH _ _ _ _ _ L' Ndt' Ndtr' H).
+  - inversion H; subst r. cbn [fst snd]. rewrite (Hz eq_refl) in L'. split; [eexists; exact L'|split; [exact Ndt'|exact Ndtr']].
 Qed.
 
 Section FixClosed.
